@@ -110,6 +110,11 @@ OpMonitors(r, c) ==
   \cup If(c.fn = "delete" /\ ok /\ r.verb = "remove_file" /\ key.t = "Block"
              /\ key.h \in Referenced(fs, Bands(fs) \ SeqRange(c.bands)),
           {<<"GcRemovedReferenced", key.h>>})
+  \* a delete removes only its own lock (g.owner[-1] = the actor whose write of GC_LOCK succeeded);
+  \* --break-lock is the explicit request to remove somebody else's
+  \cup If(c.fn = "delete" /\ ok /\ r.verb = "remove_file" /\ key.t = "Lock" /\ ~c.brk
+             /\ -1 \in DOMAIN g.owner /\ g.owner[-1] # r.actor,
+          {<<"GcRemovedOthersLock", <<r.actor, g.owner[-1]>> >>})
   \cup If(c.fn = "delete" /\ ok /\ c.dry /\ mut /\ key.t # "Lock", {<<"DryRunMutated", key.t>>})
   \cup If(c.fn = "none" /\ r.actor \notin {"init", "probe"} /\ ok /\ mut, {<<"ReaderMutated", key.t>>})
 
@@ -131,7 +136,7 @@ Expected(src, m) == TreeSel(src, Root, SeqRange(m))
 DoCall(r) ==
     /\ g' = [g EXCEPT !.calls = Put(@, r.actor,
                 [fn |-> r.fn, H |-> r.H, M |-> r.M, S |-> r.S, match |-> r.match,
-                 bands |-> r.bands, dry |-> r.dry, injected |-> r.injected,
+                 bands |-> r.bands, dry |-> r.dry, injected |-> r.injected, brk |-> r.brk,
                  fs0 |-> fs, want |-> Expected(IF r.own_tree THEN TreeOfNodes(r.tree) ELSE g.src, r.match),
                  band |-> -1, nblk |-> 0])]
     /\ UNCHANGED <<fs, viol>>
@@ -155,7 +160,11 @@ DoOp(r) ==
         snap2 == IF claims THEN Put(snap1, r.key.b, c.want) ELSE snap1
         part1 == IF tornop THEN g.partial \ {r.key.b} ELSE g.partial
         part2 == IF claims THEN (IF c.injected THEN part1 \cup {r.key.b} ELSE part1 \ {r.key.b}) ELSE part1
-        own2  == IF headw THEN Put(g.owner, r.key.b, r.actor) ELSE g.owner
+        lockw == c.fn = "delete" /\ r.verb = "write" /\ r.key.t = "Lock" /\ r.res = "ok" /\ r.inj = ""
+        lockr == r.verb = "remove_file" /\ r.key.t = "Lock" /\ r.res = "ok" /\ r.inj = ""
+        own2  == IF headw THEN Put(g.owner, r.key.b, r.actor)
+                 ELSE IF lockw THEN Put(g.owner, -1, r.actor)
+                 ELSE IF lockr THEN Del(g.owner, -1) ELSE g.owner
         \* a deleted version's id may be used again: forget what was known about it
         gone  == Bands(fs) \ Bands(f2)
         Forget(f) == [x \in (DOMAIN f) \ gone |-> f[x]]
